@@ -41,8 +41,13 @@ class SLBase(Unit):
         self.mutex = Lock(ex, '_mutex').init(st)
         self.not_empty = Condition(ex, self.mutex, '_not_empty').init(st)
         self.not_full = Condition(ex, self.mutex, '_not_full').init(st)
-        self.me = Rec(ex, 'self').init(st, maxsize=self.maxsize, _queue=self.dq, _mutex=self.mutex, _not_empty=self.not_empty,
-                                        _not_full=self.not_full, _closed=z3.BoolVal(False))
+        from pyvc.models import Fn
+        # the probe methods by their contracts (units SingleLane.empty/full/qsize): one atomic read of the deque length
+        probes = {'empty': Fn(lambda e, s, a, k, n: [('ok', s, z3.Length(self.Q(s)) == 0)]),
+                  'full': Fn(lambda e, s, a, k, n: [('ok', s, z3.And(self.maxsize > 0, z3.Length(self.Q(s)) >= self.maxsize))]),
+                  'qsize': Fn(lambda e, s, a, k, n: [('ok', s, z3.Length(self.Q(s)))])}
+        self.me = Rec(ex, 'self', methods=probes).init(st, maxsize=self.maxsize, _queue=self.dq, _mutex=self.mutex, _not_empty=self.not_empty,
+                                                       _not_full=self.not_full, _closed=z3.BoolVal(False))
         st.env['self'] = self.me
         st.ghost['G'] = self.G0
         st.ghost['P'] = self.P0
